@@ -10,11 +10,12 @@ import (
 
 func init() {
 	register("C04", func(r *Report) {
-		r.Explanation = "Decides the structure that is necessary for range, freshness, collision-freedom and refusal on exhaustion: (R1) the session's topic-ID allocator is an IDSequence over the constants 1..0xFFFE; (R2) every topic ID placed in an outgoing REGACK, SUBACK or REGISTER, and every key stored into the registered-topics map, originates from the allocator wrapper, from a key read back from that map, from the incoming packet's own predefined ID, or is the constant 0; (R3)-(R5) the allocator wrapper explored for every combination of (exhausted flag, overflow reported by the 1st/2nd Next, ID already predefined at the 1st/2nd probe) returns an ID only when the flag is clear, no Next reported overflow and the last probe of GetTopicName(<client id>, <that very ID>) failed, and every path that observes an overflow sets the sticky flag that all later calls test first; (R6) who may write the registered-topics map (shared with C01/C02): only the client-REGISTER/SUBSCRIBE path with a fresh ID and the client's own name, and the REGACK continuation with the ID and name of the stored REGISTER, guarded by ReturnCode == accepted. Not decided: the arithmetic of IDSequence.Next (C29)."
+		r.Explanation = "Decides the structure that is necessary for range, freshness, collision-freedom and refusal on exhaustion: (R1) the session's topic-ID allocator is an IDSequence over the constants 1..0xFFFE; (R2) every topic ID placed in an outgoing REGACK, SUBACK or REGISTER, and every key stored into the registered-topics map, originates from the allocator wrapper, from a key read back from that map, from the incoming packet's own predefined ID, or is the constant 0; (R3)-(R5) the allocator wrapper explored for every combination of (exhausted flag, overflow reported by the 1st/2nd Next, ID already predefined at the 1st/2nd probe) returns an ID only when the flag is clear, no Next reported overflow and the last probe of GetTopicName(<client id>, <that very ID>) failed, and every path that observes an overflow sets the sticky flag that all later calls test first; (R6) who may write the registered-topics map (shared with C01/C02): only the client-REGISTER/SUBSCRIBE path with a fresh ID and the client's own name, and the REGACK continuation with the ID and name of the stored REGISTER, guarded by ReturnCode == accepted, and no binding is ever deleted, swapped or reset; (R7) the ID sequence's state is written only by its constructor and by Next, and the session calls nothing but Next on it (no 'release'). Not decided: the arithmetic of IDSequence.Next (C29)."
 		r.floor("R1", 1)
 		r.floor("R2", 4)
 		r.floor("R3", 8)
 		r.floor("R6", 3)
+		r.floor("R7", 2)
 	}, checkC04)
 	register("C02", func(r *Report) {
 		r.Explanation = "Decides: (R1) the MQTT-SN PUBLISH built for a broker PUBLISH takes Data, QoS, Retain, DUP and message ID from exactly the corresponding fields of the MQTT packet (traced through the positional constructor, so swapped arguments are caught); (R2) the (topic-ID type, topic ID) pair of every PUBLISH handed to the sender is one of (short, EncodeShortTopic(name)) under IsShortTopic(name), (registered, key found in the registered map), (predefined, GetTopicID(<client id>, name) on ok), or (registered, fresh ID) on the needs-register path - explored per path with symbolic IDs; (R3) on the needs-register path the only packet handed to the sender is a REGISTER carrying that fresh ID and the broker's topic name, and the PUBLISH is sent only by the REGACK continuation, in state awaitingRegack, for ReturnCode == accepted, after the (ID -> name) pair of the stored REGISTER was stored in the registered map; a rejected or out-of-state REGACK stores and sends nothing; (R4) who may write the registered-topics map (shared with C01/C04); the lookup consistency of R2 is C05. Not decided: that the client accepted the REGISTER (history), delivery under loss (C16)."
@@ -235,6 +236,42 @@ func (c *Ctx) assignedFromSyncMapKey(o Origin) bool {
 func (c *Ctx) checkRegisteredMapWriters(r *Report, rule string) {
 	alloc := c.allocatorWrapper()
 	n := 0
+	// a (topic ID -> name) binding, once made, is never withdrawn or replaced wholesale during the session:
+	// the client keeps using the ID it was given (C04 "never reassigned", C02 "an ID it can resolve")
+	nd := 0
+	for _, f := range c.repoFuncs("gateway") {
+		allInstrs(f, func(i ssa.Instruction) {
+			if ci, ok := i.(ssa.CallInstruction); ok {
+				cn := calleeName(ci.Common())
+				if strings.HasPrefix(cn, "(*sync.Map).") && len(ci.Common().Args) > 0 {
+					m := strings.TrimPrefix(cn, "(*sync.Map).")
+					fa, ok := ci.Common().Args[0].(*ssa.FieldAddr)
+					if !ok || !strings.HasPrefix(typeStr(derefType(fa.X.Type())), "gateway.") {
+						return
+					}
+					switch m {
+					case "Delete", "LoadAndDelete", "CompareAndDelete", "Swap", "CompareAndSwap", "LoadOrStore", "Clear":
+						nd++
+						r.fn(f)
+						r.bad(rule, fmt.Sprintf("%s:registered-map.%s", fnKey(f), m), c.instrPos(i), "the registered-topics map is modified by "+m+": a topic ID the client was given (REGACK/SUBACK/REGISTER) stops denoting its topic, or is bound again, while the client keeps using it")
+					}
+				}
+			}
+			// whole-map reset: store of a sync.Map value into the field
+			if st, ok := i.(*ssa.Store); ok {
+				if fa, ok := st.Addr.(*ssa.FieldAddr); ok && strings.HasPrefix(typeStr(derefType(fa.X.Type())), "gateway.") && typeIs(derefType(fa.Type()), "sync", "Map") {
+					if !isFreshObject(fa.X) {
+						nd++
+						r.fn(f)
+						r.bad(rule, fmt.Sprintf("%s:registered-map.reset", fnKey(f)), c.instrPos(i), "the registered-topics map is replaced as a whole outside construction: every topic ID the client holds is forgotten")
+					}
+				}
+			}
+		})
+	}
+	if nd == 0 {
+		r.ok(rule, "registered-map:no-delete-or-reset", "-", "no Delete/Swap/LoadOrStore/Clear call and no whole-map reset on a sync.Map field of package gateway")
+	}
 	for _, f := range c.repoFuncs("gateway") {
 		allInstrs(f, func(i ssa.Instruction) {
 			ci, ok := i.(ssa.CallInstruction)
@@ -391,6 +428,76 @@ func checkC04(c *Ctx, r *Report) {
 	c.exploreAllocator(r, alloc)
 	// R6
 	c.checkRegisteredMapWriters(r, "R6")
+	// R7: the sequence only ever advances: its counter fields are written by the constructor and by Next only,
+	// and the session calls nothing but Next on its topic-ID sequence
+	c.checkSequenceMonotone(r, "R7")
+}
+
+func (c *Ctx) checkSequenceMonotone(r *Report, rule string) {
+	p := c.ByPath[pkUtil]
+	obj := p.Types.Scope().Lookup("IDSequence")
+	if obj == nil {
+		r.undecided(rule, "IDSequence", "-", "util.IDSequence not found")
+		return
+	}
+	n := 0
+	for _, f := range c.allRepoFuncs() {
+		writes := map[string]bool{}
+		var at ssa.Instruction
+		allInstrs(f, func(i ssa.Instruction) {
+			st, ok := i.(*ssa.Store)
+			if !ok {
+				return
+			}
+			fa, ok := st.Addr.(*ssa.FieldAddr)
+			if !ok || !typeIs(derefType(fa.X.Type()), pkUtil, "IDSequence") {
+				return
+			}
+			fn := fieldName(fa.X.Type(), fa.Field)
+			if fn == "lock" {
+				return
+			}
+			if isFreshObject(fa.X) {
+				return
+			}
+			writes[fn] = true
+			at = i
+		})
+		if len(writes) == 0 {
+			continue
+		}
+		n++
+		r.fn(f)
+		key := fnKey(f) + ":writes-sequence-state"
+		isNext := f.Signature.Recv() != nil && typeIs(derefType(f.Signature.Recv().Type()), pkUtil, "IDSequence") && f.Name() == "Next"
+		if isNext {
+			r.ok(rule, key, c.instrPos(at), "Next advances the sequence (fields "+strings.Join(sortedKeys(writes), ",")+")")
+		} else {
+			r.bad(rule, key, c.instrPos(at), "the ID sequence's state ("+strings.Join(sortedKeys(writes), ",")+") is written outside its constructor and Next: an ID that was already handed out can be issued again (topic IDs are never freed during a session)")
+		}
+	}
+	if n == 0 {
+		r.undecided(rule, "IDSequence:writers", "-", "no function writing the sequence state found (Next missing?)")
+	}
+	// calls on the gateway's sequence fields
+	for _, f := range c.repoFuncs("gateway") {
+		allInstrs(f, func(i ssa.Instruction) {
+			ci, ok := i.(ssa.CallInstruction)
+			if !ok {
+				return
+			}
+			g := staticCallee(ci.Common())
+			if g == nil || g.Signature.Recv() == nil || !typeIs(derefType(g.Signature.Recv().Type()), pkUtil, "IDSequence") {
+				return
+			}
+			key := fnKey(f) + ":sequence." + g.Name()
+			if g.Name() == "Next" {
+				r.ok(rule, key, c.instrPos(i), "the session only draws new IDs")
+			} else {
+				r.bad(rule, key, c.instrPos(i), "the session calls "+g.Name()+" on an ID sequence: only Next (a fresh ID) keeps IDs unique for the lifetime of the session")
+			}
+		})
+	}
 }
 
 func (c *Ctx) exploreAllocator(r *Report, alloc *ssa.Function) {
